@@ -269,7 +269,14 @@ func (m *scanModel) atomName(a *Expr) (name string, flip bool) {
 				}
 			}
 		}
-		if a.ID == 0 {
+		// the "found" result is the boolean one, wherever it stands in the tuple
+		isBool := false
+		if a.Type != nil {
+			if bt, ok := a.Type.Underlying().(*types.Basic); ok && bt.Kind() == types.Bool {
+				isBool = true
+			}
+		}
+		if a.ID == 0 || isBool {
 			return "found:" + fn, false
 		}
 		return fmt.Sprintf("%s#%d", fn, a.ID), false
